@@ -63,7 +63,9 @@ def cases(rng, tier):
         out.append({"base": base, "password": pw, "sessions": [_session(rng, s + 1, pw) for s in range(k)]})
     # session-level shapes: what an append session does to the archive it finds (from a bug hunt on the unmodified tree)
     shapes = ["stream-not-rewound", "unknown-file-property", "damaged-header", "not-an-archive", "empty-file", "wrong-password", "test-inside-append", "testzip-inside-append",
-              "extract-inside-append", "refused-chain"]
+              "extract-inside-append", "refused-chain",
+              # fourth hunt: an archive the user may write but not read; a file object opened in append mode; members stored without a name
+              "write-only-archive", "append-mode-fileobject", "nameless-members"]
     for i in range(len(shapes) * (1 if tier == "quick" else 20)):
         out.append({"kind": "special", "shape": shapes[i % len(shapes)], "seed": rng.getrandbits(32), "password": None, "base": None})
     return out
@@ -263,7 +265,7 @@ def _run_special(case):
                     viol.append({"key": "append-alters-history/%s" % shape, "what": "%s: archive lists %r, history says %r (or bytes differ)" % (tag, gn, want_all)})
             except Exception as e:
                 viol.append({"key": "append-breaks-archive/%s/%s" % (shape, type(e).__name__), "what": "%s: %s" % (tag, pz.exc_sig(e))})
-        else:  # refused-chain
+        elif shape == "refused-chain":
             b = io.BytesIO(base_bytes())
             err = None
             try:
@@ -278,6 +280,103 @@ def _run_special(case):
             except Exception as e:
                 viol.append({"key": "append-breaks-archive/refused-chain/%s" % type(e).__name__, "what": "%s: the session raised %s; afterwards the archive cannot be read: %s" % (
                     tag, pz.exc_sig(err) if err else "nothing", pz.exc_sig(e))})
+        if shape == "write-only-archive":
+            # mode 0222, opened with 'a' by a user who is not root: whatever the session does, the members stay
+            p_ = os.path.join(d, "wo.7z")
+            data = base_bytes()
+            with open(p_, "wb") as f:
+                f.write(data)
+            os.chmod(p_, 0o222)
+            os.chmod(d, 0o777)
+            pid = os.fork()
+            if pid == 0:
+                code = 0
+                try:
+                    os.setgid(65534)
+                    os.setuid(65534)
+                    try:
+                        with py7zr.SevenZipFile(p_, "a") as z:
+                            z.writestr(new[1], new[0])
+                    except BaseException:
+                        code = 3
+                finally:
+                    os._exit(code)
+            _, st = os.waitpid(pid, 0)
+            obs["forked_sessions"] = 1
+            os.chmod(p_, 0o644)
+            with open(p_, "rb") as f:
+                now = f.read()
+            try:
+                gn, got = read_back(now)
+                if gn[: len(old)] != [n for n, _ in old] or any(got.get(n) != dta for n, dta in old):
+                    viol.append({"key": "append-drops-history/write-only-archive", "what": "%s (session %s): archive lists %r" % (tag, "raised" if os.WEXITSTATUS(st) == 3 else "ended normally", gn)})
+            except Exception as e:
+                viol.append({"key": "append-breaks-archive/write-only-archive", "what": "%s: an archive of %d bytes with mode 0222, opened with mode 'a' by uid 65534 (session %s): the file now has %d bytes and cannot be read: %s" % (
+                    tag, len(data), "raised" if os.WEXITSTATUS(st) == 3 else "ended normally", len(now), pz.exc_sig(e))})
+        elif shape == "append-mode-fileobject":
+            for fmode, smode in (("a+b", "a"), ("ab", "w"), ("a+b", "w")):
+                p_ = os.path.join(d, "ao-%s-%s.7z" % (fmode.replace("+", "p"), smode))
+                data = base_bytes()
+                if smode == "a":
+                    with open(p_, "wb") as f:
+                        f.write(data)
+                err = None
+                fo = open(p_, fmode)
+                try:
+                    with py7zr.SevenZipFile(fo, smode) as z:
+                        z.writestr(new[1], new[0])
+                except Exception as e:
+                    err = e
+                finally:
+                    fo.close()
+                with open(p_, "rb") as f:
+                    now = f.read()
+                want = want_all if smode == "a" else [new[0]]
+                if err is not None:
+                    # refused: an append must leave the bytes alone
+                    if smode == "a" and now != data:
+                        viol.append({"key": "refused-append-modifies/append-mode-fileobject", "what": "%s: session on open(p, %r) raised %s but changed the file" % (tag, fmode, pz.exc_sig(err))})
+                    continue
+                try:
+                    gn, got = read_back(now)
+                except Exception as e:
+                    gn = "unreadable: " + pz.exc_sig(e)
+                if gn != want:
+                    viol.append({"key": "session-lost/append-mode-fileobject/%s" % smode, "what": "%s: SevenZipFile(open(p, %r), %r) ended without error; the file (%d bytes) lists %r, the sessions wrote %r" % (
+                        tag, fmode, smode, len(now), gn, want)})
+        elif shape == "nameless-members":
+            root = os.environ.get("VERIF_REPO", "/repo")
+            for fx in ("github_14.7z", "github_14_multi.7z"):
+                src_ = os.path.join(root, "tests", "data", fx)
+                if not os.path.exists(src_):
+                    continue
+                with open(src_, "rb") as f:
+                    data = f.read()
+                p_ = os.path.join(d, fx)
+                for route in ("stream-then-path", "path-then-stream", "path-then-path"):
+                    with open(p_, "wb") as f:
+                        f.write(data)
+                    try:
+                        if route == "stream-then-path":
+                            before = py7zr.SevenZipFile(p_).getnames()
+                            b = io.BytesIO(data)
+                            with py7zr.SevenZipFile(b, "a") as z:
+                                z.writestr(new[1], new[0])
+                            with open(p_, "wb") as f:
+                                f.write(b.getvalue())
+                            after = py7zr.SevenZipFile(p_).getnames()
+                        else:
+                            before = py7zr.SevenZipFile(io.BytesIO(data)).getnames() if route == "path-then-stream" else py7zr.SevenZipFile(p_).getnames()
+                            with py7zr.SevenZipFile(p_, "a") as z:
+                                z.writestr(new[1], new[0])
+                            with open(p_, "rb") as f:
+                                nd = f.read()
+                            after = py7zr.SevenZipFile(io.BytesIO(nd)).getnames() if route == "path-then-stream" else py7zr.SevenZipFile(p_).getnames()
+                        obs["nameless_routes"] = obs.get("nameless_routes", 0) + 1
+                        if after != before + [new[0]]:
+                            viol.append({"key": "append-renames-member/nameless", "what": "%s, %s (%s): members read %r before the append session and %r after it (same way of opening)" % (tag, fx, route, before, after)})
+                    except Exception as e:
+                        viol.append({"key": "append-raises/nameless/%s" % type(e).__name__, "what": "%s, %s (%s): %s" % (tag, fx, route, pz.exc_sig(e))})
     cell = "special|" + shape
     if viol:
         return K.result("violated", violations=viol, cell=cell, obs=obs, sample={"shape": shape})
